@@ -14,7 +14,9 @@ STRING_FORMATS = [None, None, None, "date-time", "date", "email", "uri", "byte",
 TRIGGER_FORMATS = ["uuid", "time", "binary"]
 
 SCHEMA_NAMES = ["Pet", "Owner", "Order", "Invoice", "LineItem", "Address", "Customer", "Shipment", "Widget", "Gadget",
-                "Account", "Profile", "Ticket", "Message", "Folder", "Document", "Report", "Metric", "Sensor", "Reading"]
+                "Account", "Profile", "Ticket", "Message", "Folder", "Document", "Report", "Metric", "Sensor", "Reading",
+                # declared names that class-name derivation rewrites (the harness finds classes by an alphanumeric case-folded match)
+                "HTTPValidationError", "user_profile", "OrderV2", "XMLFeed", "shipping-label"]
 PROP_STYLES = {
     "camel": ["displayName", "createdAt", "itemCount", "isActive", "unitPrice", "postalCode", "lastSeenOn", "homeUrl"],
     "snake": ["display_name", "created_at", "item_count", "is_active", "unit_price", "postal_code", "last_seen_on", "home_url"],
